@@ -48,6 +48,7 @@ pub enum BOp {
     Write(usize, u64), // through an exclusive guard
     SysDataOptRead(u8),  // world.system_data::<Option<Read<T>>>() while the guards are alive
     SysDataOptWrite(u8), // world.system_data::<Option<Write<T>>>()
+    Has(u8, u64),        // a presence query while the guards are alive (it borrows nothing)
 }
 
 #[derive(Clone, Debug, PartialEq)]
@@ -92,6 +93,7 @@ impl WCase {
                             BOp::Write(k, v) => s += &format!("  write k={} v={}\n", k, v),
                             BOp::SysDataOptRead(t) => s += &format!("  sysdata_opt_read t={}\n", t),
                             BOp::SysDataOptWrite(t) => s += &format!("  sysdata_opt_write t={}\n", t),
+                            BOp::Has(t, d) => s += &format!("  has t={} d={}\n", t, d),
                         }
                     }
                     s += "}\n";
@@ -126,6 +128,7 @@ impl WCase {
                     "write" => b.push(BOp::Write(f(&toks, "k")? as usize, f(&toks, "v")?)),
                     "sysdata_opt_read" => b.push(BOp::SysDataOptRead(f(&toks, "t")? as u8)),
                     "sysdata_opt_write" => b.push(BOp::SysDataOptWrite(f(&toks, "t")? as u8)),
+                    "has" => b.push(BOp::Has(f(&toks, "t")? as u8, f(&toks, "d")?)),
                     o => return Err(format!("unknown borrow op {}", o)),
                 }
                 continue;
@@ -173,7 +176,8 @@ pub fn generate(rng: &mut Rng) -> WCase {
                     let d = [0u64, 0, 1, 7][rng.below(4)];
                     let t2 = (t + 1) % 3;
                     val += 1;
-                    b.push(match rng.below(12) {
+                    b.push(match rng.below(13) {
+                        12 => BOp::Has(t, d),
                         10 => BOp::SysDataOptRead(t),
                         11 => BOp::SysDataOptWrite(t),
                         0 | 1 | 2 => BOp::Fetch(t, d),
@@ -455,6 +459,15 @@ pub fn run(case: &WCase) -> Option<(&'static str, String)> {
                                         return Some(("C08", format!("{} returned {}, the resource is {}", bwhat, if some { "Some" } else { "None" }, if present { "present" } else { "absent" })));
                                     }
                                 }
+                            }
+                        }
+                        BOp::Has(t, d) => {
+                            // presence queries agree with the map whatever is borrowed: they borrow nothing themselves
+                            let r: Result<bool, String> = by_type!(*t, T => quiet(|| if *d == 0 { w.has_value::<T>() } else { w.has_value_raw(rid(*t, *d)) }));
+                            match r {
+                                Ok(got) if got == model.contains_key(&(*t, *d)) => {}
+                                Ok(got) => return Some(("C09", format!("{}: the presence query says {}, the map says {}", bwhat, got, !got))),
+                                Err(m) => return Some(("C09", format!("{}: the presence query panicked while guards are alive (it must agree with the map): {}", bwhat, m))),
                             }
                         }
                         BOp::Drop(k) => {
